@@ -12,6 +12,7 @@ type refVal struct {
 	keys []string
 	vals []*refVal
 	cnt  uint32 // ECMA array count hint as read
+	tb   uint8  // byte a conformant encoder writes for true (any non-zero value; 0 means 1)
 }
 
 func refEncStr(s string) []byte {
@@ -27,6 +28,9 @@ func refEncode(v *refVal, keyedStrict bool) []byte {
 		return []byte{0, byte(n >> 56), byte(n >> 48), byte(n >> 40), byte(n >> 32), byte(n >> 24), byte(n >> 16), byte(n >> 8), byte(n)}
 	case 1:
 		if v.b {
+			if v.tb != 0 {
+				return []byte{1, v.tb}
+			}
 			return []byte{1, 1}
 		}
 		return []byte{1, 0}
